@@ -352,23 +352,62 @@ def step (d : DState) (l : Line) : DState × List Verdict :=
         fin name implRet model cl []
       | _, _, _, _, _, _ => bad
     | "q2" =>
-      match getRev l.args "c", getRev l.args "p1", getRev l.args "p2", getNat l.args "relock", getNat l.args "price1",
-            getNat l.args "price2", (getStr l.args "k1").bind siteOf, (getStr l.args "k2").bind siteOf with
-      | some c, some p1, some p2, some relock, some pr1, some pr2, some (s1, n1), some (s2, n2) =>
-        let mk (p : Rev) (price : Nat) (k : String) : SiteIn :=
-          { cur := c, no := p.revNo, vv := vals p.valid, mv := vals p.missed, price := price, burn := 0,
-            sigOK := getNat l.obs ("sigok" ++ k) == some 1 }
-        let i1 := mk p1 pr1 "1"
-        let i2 := mk p2 pr2 "2"
-        let (m1, m2) := session2 fx codeFacts c s1 s2 i1 i2 (relock == 1)
-        let o1 := getRev l.obs "o1"
-        -- what the store holds before the second request: the first commit, if there was one
-        let before2 := o1.getD c
-        let v1 := stepVerdicts n1 s1 c i1 ((getStr l.obs "r1").getD "none") ((getNat l.obs "sig1").getD 0) o1 0 m1 (s1 == .rhp2Write)
-        let v2 := stepVerdicts n2 s2 before2 i2 ((getStr l.obs "r2").getD "none") ((getNat l.obs "sig2").getD 0)
-                    (getRev l.obs "o2") 0 m2 (s2 == .rhp2Write)
-        (count d res 30, v1 ++ v2)
-      | _, _, _, _, _, _, _, _ => bad
+      match getRev l.args "c", getNat l.args "relock", getSettings l.args, getNat l.args "h" with
+      | some c, some relock, some st, some h =>
+        let nolock := (getNat l.args "nolock").getD 0 == 1
+        -- one step of the session as a model operation
+        let opOf (k : String) : Option (SessOp × String) :=
+          match getStr l.args ("k" ++ k) with
+          | some "renew2" =>
+            match getRev l.args ("f" ++ k), getNatList l.args ("fv" ++ k), getNat l.args ("rk" ++ k), getNat l.args ("bs" ++ k) with
+            | some f, some fv, some rk, some bs =>
+              some (.renew f fv (10 + rk) h maxRev st { clearing := bs != 1, contract := bs != 2 }, "renew2")
+            | _, _, _, _ => none
+          | some "form2" =>
+            match getRev l.args ("f" ++ k), getNat l.args ("rk" ++ k), getNat l.args ("bs" ++ k) with
+            | some f, some rk, some bs => some (.form f (10 + rk) h maxRev st { clearing := true, contract := bs != 2 }, "form2")
+            | _, _, _ => none
+          | some kind =>
+            match siteOf kind, getRev l.args ("p" ++ k), getNat l.args ("price" ++ k) with
+            | some (site, _), some p, some price =>
+              some (.rpc site { cur := c, no := p.revNo, vv := vals p.valid, mv := vals p.missed, price := price, burn := 0,
+                                sigOK := getNat l.obs ("sigok" ++ k) == some 1 }, kind)
+            | _, _, _ => none
+          | none => none
+        match opOf "1", opOf "2" with
+        | some (o1, k1), some (o2, k2) =>
+          let (m1, m2) := sessionOps fx codeFacts c (!nolock) o1 o2 (relock == 1)
+          let st1 := getRev l.obs "o1"
+          -- what the store holds for the locked contract before the second request
+          let before2 := st1.getD c
+          let verdicts (k : String) (o : SessOp) (kind : String) (before : Rev) (m : Res (Rev × Nat)) : List Verdict :=
+            let res := (getStr l.obs ("r" ++ k)).getD "none"
+            let sig := (getNat l.obs ("sig" ++ k)).getD 0
+            let stored := getRev l.obs ("o" ++ k)
+            match o with
+            | .rpc site i =>
+              let name := match siteOf kind with | some (_, n) => n | none => kind
+              stepVerdicts name site before i res sig stored 0 m (site == .rhp2Write)
+            | .renew _ fv _ _ _ _ sg =>
+              -- the clearing revision persisted over the locked contract, judged against what the store held
+              let pay := match renterVal before.valid with
+                | some v => if st.baseRPCPrice > v then v else st.baseRPCPrice
+                | none => 0
+              let cl : List (String × Bool) := match stored with
+                | some x => ((clearingClauses before x pay).map fun c => ("clearing_" ++ c.1, c.2)) ++
+                    [("clearing_revision_number_increases", decide (x.revNo > before.revNo)),
+                     ("clearing_values_as_requested", vals x.valid == fv),
+                     ("clearing_signature_over_expected_revision", sig != 2),
+                     ("clearing_renter_signed_this_revision", sg.clearing), ("renter_signed_new_contract", sg.contract)]
+                | none => [("clearing_stored", false)]
+              let res := if res == "none" then "reject" else res
+              judge "rpcRenewAndClearContract" res ((stored.map showRev).getD "") (m.bind fun (r, _) => .ok (showRev r)) cl []
+            | .form _ _ _ _ _ sg =>
+              let res := if res == "none" then "reject" else res
+              judge "rpcFormContract" res "" (m.bind fun _ => .ok "") [("renter_signed_new_contract", sg.contract)] []
+          (count d res 30, verdicts "1" o1 k1 c m1 ++ verdicts "2" o2 k2 before2 m2)
+        | _, _ => bad
+      | _, _, _, _ => bad
     | "q3" =>
       match getRev l.args "c", getRev l.args "p1", getRev l.args "p2", getNat l.args "need", getNat l.args "burn" with
       | some c, some p1, some p2, some need, some burn =>
